@@ -80,7 +80,7 @@ Order8 == /\ (Key(e1, l1) < Key(e2, l2)) <=> (e1 < e2 \/ (e1 = e2 /\ l1 < l2))  
           /\ (e1 < e2 \/ (e1 = e2 /\ l1 < l2)) <=> Bytes8Less                        \* = byte order of the 8 bytes
 \* one obligation per width for the quick tier
 All24 == RoundTrip /\ OrderPreserved /\ Injective /\ LimbWise /\ LimbOrder
-All8 == RoundTrip8 /\ Order8
+All8 == RoundTrip8 /\ Order8 /\ Halves /\ SplitDigits
 
 \* deliberately false (must be refuted): little-endian bytes do not order like the values
 LEBytesLess(x, y) == \E k \in Idx : /\ k < W /\ Digit(x, k) < Digit(y, k)
